@@ -16,7 +16,8 @@ for n in names:
     errs = [l.split(':')[0] for l in t.splitlines() if ' ERROR ' in l or l.strip().endswith('ERROR')]
     m = json.load(open(os.path.join(d, 'meta.json')))
     if os.environ.get('OWN_ONLY'):
-        m['caught_by_other_checks_earlier_run'] = [c for c in m.get('caught_by', []) if c != m['property']]
+        m.setdefault('caught_by_other_checks_earlier_run', [])
+        m['caught_by_other_checks_earlier_run'] = sorted(set(m['caught_by_other_checks_earlier_run']) | set(c for c in m.get('caught_by', []) if c != m['property']))
     m['caught_by'] = caught
     m['caught_by_own_property_check'] = m['property'] in caught
     m['check_errors'] = errs
